@@ -277,9 +277,13 @@ func (t *TableProfile) ReadFrom(r io.Reader) (total int64, err error) {
 		{"columns", func(p *encoding.Parser) (n int64, err error) {
 			var j uint16
 			nFields := uint16(len(fields))
-			t.Columns = make([]*ColumnProfile, count)
+			prealloc := count
+			if prealloc > maxPrealloc {
+				prealloc = maxPrealloc
+			}
+			t.Columns = make([]*ColumnProfile, 0, prealloc)
 			for i := uint32(0); i < count; i++ {
-				t.Columns[i] = &ColumnProfile{}
+				t.Columns = append(t.Columns, &ColumnProfile{})
 				for {
 					l, err := objline.ReadUint16(p, &j)
 					if err != nil {
